@@ -143,12 +143,12 @@ fn check_lattice(acc: &mut Acc, idx: usize, a: IP, b: IP, c: IP, d: IP) {
 
 pub fn run(mut run: Run) -> i32 {
     let quick = run.ctx.quick();
-    run.rule = "every ordered pair of segments over the 5x5 lattice including zero-length ones (quick; thorough 7x7): exact classification None / single point (proper iff interior to both) / Collinear with the exact shared sub-segment, \
+    run.rule = "every ordered pair of segments over the 6x6 lattice including zero-length ones (quick; thorough 9x9): exact classification None / single point (proper iff interior to both) / Collinear with the exact shared sub-segment, \
         improper point bit-identical to the endpoint, proper point within 4 ulp of the exact rational crossing and inside both bounding boxes, agreement with Line::intersects, invariance under swap/reversal; \
         plus ulp windows: one endpoint ranging over every point of a w x w ulp lattice around nearly-parallel / large-magnitude configurations against exact big-integer classification; distinct = (exact kind, degenerate operands, parallel)"
         .into();
     run.assumptions = vec!["4-ulp bound on proper points is asserted only on the lattice family, where conditioning is bounded".into()];
-    let g = grid(if quick { 5 } else { 7 });
+    let g = grid(if quick { 6 } else { 9 });
     let n = g.len();
     let n2 = n * n;
     run.stage("lattice-pairs", n2 * n2, |idx, acc| {
@@ -156,7 +156,7 @@ pub fn run(mut run: Run) -> i32 {
         check_lattice(acc, idx, g[s1 / n], g[s1 % n], g[s2 / n], g[s2 % n]);
     });
     // ulp windows
-    let w: i64 = run.ctx.pick(128, 512);
+    let w: i64 = run.ctx.pick(192, 1024);
     struct B {
         name: &'static str,
         a: F2,
